@@ -279,6 +279,108 @@ def unit_nd(method, pad, axis):
     return Unit('fd/nd/%s/%s/axis%d' % (method, pad, axis), run, funcs=[DO + 'finite_diff'], config={'method': method, 'pad_mode': pad, 'axis': axis})
 
 
+def unit_op_call(cname, method, pad):
+    """`_call` of the operator classes on a 1-d domain of SYMBOLIC length n (the real finite_diff runs inside): the result, written into an `out` holding anything, equals
+    what finite_diff gives for the operator's own (method, pad_mode, pad_const) and cell side - PartialDerivative: fd(x); Divergence (1 component): fd(x[0]);
+    Laplacian: (fd_forward(x) - fd_backward(x)) with dx^2 - at EVERY index, for every pad mode incl. the adjoint ones (the reference is computed by two separate
+    calls of the real finite_diff, so any correct re-arrangement of the accumulation passes); x is untouched."""
+    def run(ctx):
+        I = ctx.I
+
+        def path(st):
+            st.closure_arrays = True
+            n = S(z3.Int('n'))
+            st.assume(n >= nmin(pad))
+            dx = S(z3.Real('dx'))
+            st.assume(dx > 0)
+            c = S(z3.Real('c')) if pad == 'constant' else 0
+            farr = carr.fresh_array('f', (n,), npm.DT('float64'))
+            oarr = carr.fresh_array('stale', (n,), npm.DT('float64'))
+            k = S(z3.Int('k'))
+
+            class Space(object):
+                def pv_getattr(self, I_, fr_, name):
+                    if name == 'ndim':
+                        return 1
+                    if name == 'cell_sides':
+                        return carr.list_array([dx])
+                    if name == 'default_order':
+                        return 'C'
+                    raise Unsupported('space .%s' % name)
+            sp = Space()
+
+            class El(object):
+                def __init__(self, arr):
+                    self.arr = arr
+
+                def pv_getitem(self, I_, fr_, idx):
+                    if int(idx) != 0:
+                        raise ip.PyRaise(I_.make_exc('IndexError', 'index out of range'))
+                    return self.arr if cname == 'Divergence' else El(self.arr)
+
+                def pv_getattr(self, I_, fr_, name):
+                    if name == 'asarray':
+                        return ip.Builtin('asarray', lambda I2, fr2, a, kw: self.arr)
+                    if name == 'set_zero':
+                        def sz(I2, fr2, a, kw):
+                            I2.setitem(self.arr, slice(None), 0.0, fr2) if hasattr(I2, 'setitem') else self.arr.pv_setitem(I2, fr2, slice(None), 0.0)
+                            return self
+                        return ip.Builtin('set_zero', sz)
+                    if name == 'shape':
+                        return (n,)
+                    if name == 'dtype':
+                        return npm.DT('float64')
+                    if name == 'space':
+                        return sp
+                    raise Unsupported('element .%s' % name)
+
+            class CM(object):
+                def __init__(self, el):
+                    self.el = el
+
+                def pv_enter(self, I_, fr_):
+                    return self.el.arr
+
+                def pv_exit(self, I_, fr_, exc):
+                    return None
+            st.cuts['odl.util.utility:writable_array'] = lambda I_, fr_, obj, **kw: CM(obj) if isinstance(obj, El) else (_ for _ in ()).throw(Unsupported('writable_array(%r)' % (obj,)))
+            op = ip.Obj(I.get_class(DO + cname))
+            op.fields.update({'_Operator__domain': sp, '_Operator__range': sp, '_Operator__is_linear': False, 'pad_mode': pad, 'pad_const': c, 'method': method,
+                              'axis': 0, 'dx': dx})
+            x, out = El(farr), El(oarr)
+            fr = ip.Frame(st)
+            cl, e = op.cls.lookup('_call')
+            try:
+                ret = I.call(I.bind_entry(op, cl, '_call', e, fr), [x, out], {}, fr)
+                # reference: the real finite_diff, called separately
+                if cname == 'Laplacian':
+                    r1 = carr.fresh_array('ref1', (n,), npm.DT('float64'))
+                    r2 = carr.fresh_array('ref2', (n,), npm.DT('float64'))
+                    run_fd(I, st, farr, r1, 'forward', pad, dx * dx, c)
+                    run_fd(I, st, farr, r2, 'backward', pad, dx * dx, c)
+                    refs = (r1, r2)
+                else:
+                    r1 = carr.fresh_array('ref1', (n,), npm.DT('float64'))
+                    run_fd(I, st, farr, r1, method, pad, dx, c)
+                    refs = (r1,)
+            except ip.PyRaise as ex:
+                return ('raise', ex.exc)
+            st.assume(k >= 0)
+            st.assume(k < n)
+            return ('ok', (ret, out, oarr, farr, refs, k))
+        info = {'class': cname, 'method': method, 'pad_mode': pad}
+        rp = {'kind': 'fd', 'method': method, 'pad_mode': pad}
+        for st, (status, r) in ctx.explore(path):
+            if status == 'raise':
+                ctx.fail(st, 'no_raise', 'raises %s' % lib.exc_desc(r), info, replay=rp)
+                continue
+            ret, out, oarr, farr, refs, k = r
+            ctx.prove(st, 'returns out', ret is out, info)
+            want = refs[0].at((k,)) - refs[1].at((k,)) if len(refs) == 2 else refs[0].at((k,))
+            ctx.prove(st, 'out(k) == finite_diff reference at every index, every n, whatever out held before', core.sc_eq(oarr.at((k,)), want), info, replay=rp)
+    return Unit('ops-call/%s/%s/%s' % (cname, method, pad), run, funcs=[DO + cname + '._call', DO + 'finite_diff'], config={'class': cname, 'method': method, 'pad_mode': pad})
+
+
 def unit_canary():
     """must-fail: forward difference claimed for the backward method"""
     def run(ctx):
@@ -426,6 +528,14 @@ def units(tier, seed):
             for p in (pads if cn != 'Laplacian' else ('constant', 'periodic', 'symmetric')):
                 us.append(unit_class(cn, m, p, False))
             us.append(unit_class(cn, m, 'constant', True))
+    lap_pads = [p for p in pads if not p.startswith('order1') and not p.startswith('order2')]       # Laplacian supports constant / periodic / symmetric(+adjoint) / order0(+adjoint)
+    for p in lap_pads:
+        us.append(unit_op_call('Laplacian', 'forward', p))
+    for m in methods:
+        for p in ('constant', 'periodic', 'symmetric', 'order1', 'order1_adjoint'):
+            us.append(unit_op_call('PartialDerivative', m, p))
+    for p in ('constant', 'symmetric_adjoint'):
+        us.append(unit_op_call('Divergence', 'forward', p))
     us.append(unit_canary())
     return us
 
